@@ -28,8 +28,8 @@ type Op struct {
 	X     int64  `json:"x,omitempty"`
 	Fault string `json:"fault,omitempty"` // "", write, writetrunc, db, dbsync, trunc
 	K     int64  `json:"k,omitempty"`
-	Obs   string `json:"obs,omitempty"` // Gallina term of the observation
-	WF    bool   `json:"wf"`            // generated as a well-formed call
+	Obs   string `json:"obs,omitempty"`   // Gallina term of the observation
+	WF    bool   `json:"wf"`              // generated as a well-formed call
 	Panic string `json:"panic,omitempty"` // the real code panicked in this call
 	Race  string `json:"race,omitempty"`  // a reader racing with this call saw a state no history has
 }
@@ -51,12 +51,12 @@ type Env struct {
 	// index transaction is made to fail.
 	RaceReader bool
 	Dir        string
-	DB   *FDB
-	BS   headerfs.BlockHeaderStore
-	FS   headerfs.FilterHeaderStore
-	BF   *FFile
-	FF   *FFile
-	Pool *Pool
+	DB         *FDB
+	BS         headerfs.BlockHeaderStore
+	FS         headerfs.FilterHeaderStore
+	BF         *FFile
+	FF         *FFile
+	Pool       *Pool
 	// Assert is the header state assertion handed to NewFilterHeaderStore
 	// by Open (nil: none).
 	Assert *headerfs.FilterHeader
@@ -126,6 +126,10 @@ func (e *Env) arm(file *FFile, fault string, k int64) {
 		file.TruncFail = true
 	case "db":
 		e.DB.Fail = true
+	case "db2":
+		// the SECOND index transaction of the call fails: the operations
+		// of the unchanged code make one, so this is no fault at all
+		e.DB.SkipThenFail = 2
 	case "dbsync":
 		e.DB.Fail = true
 		file.SyncFail = true
@@ -141,6 +145,7 @@ func (e *Env) disarm() {
 		f.WriteFailAt, f.TruncFail, f.SyncFail = -1, false, false
 	}
 	e.DB.Fail = false
+	e.DB.SkipThenFail = 0
 }
 
 func optPair(ok bool, a, b int64) string {
@@ -366,7 +371,7 @@ func (e *Env) exec(op *Op) bool {
 
 func faultTerm(op *Op) string {
 	switch op.Fault {
-	case "":
+	case "", "db2":
 		return "NoFault"
 	case "write":
 		return c.App("WriteFail", c.Z(op.K))
@@ -508,6 +513,9 @@ func (g *Gen) someHeight() int64 {
 
 func (g *Gen) pickFault(app bool, nbytes int64, malformed bool) (string, int64) {
 	x := g.R.Intn(100)
+	if x < 6 && (nbytes > 0 || !app) {
+		return "db2", 0
+	}
 	if app {
 		switch {
 		case x < 78:
@@ -626,7 +634,7 @@ func (g *Gen) Next(malformed bool) Op {
 			}
 		}
 		op.Fault, op.K = g.pickFault(false, 0, malformed)
-		if op.Fault != "" {
+		if op.Fault != "" && op.Fault != "db2" {
 			op.WF = false
 		}
 		return op
@@ -646,7 +654,7 @@ func (g *Gen) Next(malformed bool) Op {
 			op.WF = false
 		}
 		op.Fault, op.K = g.pickFault(false, 0, malformed)
-		if op.Fault != "" {
+		if op.Fault != "" && op.Fault != "db2" {
 			op.WF = false
 		}
 		return op
@@ -752,7 +760,8 @@ func FullDump(g *Gen) []Op {
 	}
 	sort.Slice(gone, func(i, j int) bool { return gone[i] < gone[j] })
 	for _, t := range gone {
-		ops = append(ops, Op{Kind: "qheightof", X: t, WF: true}, Op{Kind: "qbhash", X: t, WF: true})
+		ops = append(ops, Op{Kind: "qheightof", X: t, WF: true}, Op{Kind: "qbhash", X: t, WF: true},
+			Op{Kind: "qfhash", X: t, WF: true}, Op{Kind: "qfanc", N: 1, X: t, WF: true})
 	}
 	return ops
 }
